@@ -51,7 +51,7 @@ Theorem override_wins_not_saved_lemma (v0 : T) (ops : list (cop T)) :
   cp_read p = ref_read ops v0 /\ cp_marshal p = ref_base ops v0 /\ c_staged p = None.
 Proof.
   destruct (crun_settled ops (cp_new v0) eq_refl) as (H1 & H2 & H3). cbn zeta.
-  unfold cp_read, cp_marshal, ow_get, ref_read. rewrite H3, H2. cbn. auto.
+  unfold cp_read, cp_marshal, cp_pending, ow_get, ref_read. rewrite H1, H3, H2. cbn. auto.
 Qed.
 
 Theorem live_read_lemma (v0 : T) (ops : list (cop T)) :
@@ -128,7 +128,8 @@ Theorem fine_refines_lemma (v0 : T) (ops : list (fop T)) :
   fwf false ops = true ->
   let p := fst (frun (cp_new v0) ops) in
   let r := fold_left fref_step ops {| fr_base := v0; fr_over := None; fr_staged := None |} in
-  cp_read p = (match fr_over r with Some o => o | None => fr_base r end) /\ cp_marshal p = fr_base r.
+  cp_read p = (match fr_over r with Some o => o | None => fr_base r end) /\
+  cp_marshal p = (match fr_staged r with Some v => v | None => fr_base r end).
 Proof.
   intros Hw. cbn zeta.
   assert (G : forall ops (p : cprop T) r acc,
@@ -147,8 +148,9 @@ Proof.
       + destruct (fr_staged r) eqn:E'; cbn; rewrite ?E'; exact Hw. }
   specialize (G ops (cp_new v0) {| fr_base := v0; fr_over := None; fr_staged := None |} []).
   assert (G' := G ltac:(unfold frel; cbn; auto) Hw). clear G.
-  destruct G' as (H1 & H2 & _).
-  unfold frun, cp_read, cp_marshal, ow_get. rewrite H1, H2. auto.
+  destruct G' as (H1 & H2 & H3).
+  unfold frun, cp_read, cp_marshal, cp_pending, ow_get. rewrite H1, H2, H3.
+  split; [reflexivity|]. destruct (fr_staged _); [reflexivity|exact H1].
 Qed.
 
 End Ref.
@@ -200,15 +202,16 @@ Proof.
   split; apply map_ext; intros [k p]; reflexivity.
 Qed.
 
-(* with no override in force the reloaded process sees exactly the same settings *)
+(* with no override in force (and no update in flight) the reloaded process sees exactly the same settings *)
 Corollary cfg_roundtrip_same (c : config) :
   Forall field_valid (bases c) -> verify (bases c) = true ->
-  (forall kp, In kp c -> o_over (c_committed (snd kp)) = None) ->
+  (forall kp, In kp c -> o_over (c_committed (snd kp)) = None /\ c_staged (snd kp) = None) ->
   exists c', load lib_dec verify (persist lib_enc c) = Ok c' /\ effective c' = effective c.
 Proof.
   intros Hv Hver Hno. destruct (cfg_roundtrip_lemma c Hv Hver) as (c' & H1 & H2 & _).
   exists c'. split; [exact H1|]. rewrite H2. unfold bases, effective.
-  apply map_ext_in. intros kp Hin. unfold cp_read, cp_marshal, ow_get. rewrite (Hno kp Hin). reflexivity.
+  apply map_ext_in. intros kp Hin. destruct (Hno kp Hin) as [Ho Hs].
+  unfold cp_read, cp_marshal, cp_pending, ow_get. rewrite Ho, Hs. reflexivity.
 Qed.
 
 End SaveLoad.
